@@ -42,7 +42,7 @@ ASSUMPTIONS = [
 ]
 
 
-def shrink_overlay():
+def shrink_overlay(bid=CID):
     """Rewritten copy of the raftlog file that defines maxNumEntries; fails loudly if the constant is not found."""
     pkg = "lib/raftlog"
     src_dir = os.path.join(checklib.REPO, pkg)
@@ -60,7 +60,7 @@ def shrink_overlay():
     new, n = rx.subn(lambda m: "%s%d%s" % (m.group(1), SHRUNK, m.group(3)), text, count=1)
     if n != 1 or new == text:
         checklib.tool_error("C05: could not rewrite maxNumEntries in %s" % fn)
-    out = os.path.join(checklib.build_dir(CID), "shrunk_" + fn)
+    out = os.path.join(checklib.build_dir(bid), "shrunk_" + fn)
     with open(out, "w") as fh:
         fh.write(new)
     return {os.path.join(src_dir, fn): out}
@@ -85,8 +85,10 @@ def _which_binary(replay_path):
 
 def run(tier, replay):
     t0 = time.time()
-    ov = checklib.gen_overlay(CID, HOOKS, shrink_overlay())
-    bdir = checklib.build_dir(CID)
+    # development aid: C05_BUILD=<id> keeps overlay and binaries of parallel runs (other tree, other part) apart
+    bid = os.environ.get("C05_BUILD", CID)
+    ov = checklib.gen_overlay(bid, HOOKS, shrink_overlay(bid), also=(CID,))
+    bdir = checklib.build_dir(bid)
     scratch = _scratch_root()
     try:
         if replay:
@@ -108,21 +110,67 @@ def run(tier, replay):
             if only and name != only:
                 continue
             built.append((name, test, checklib.go_test_build(CID, pkg, ov, out=os.path.join(bdir, binname))))
-        reports, wall = [], {}
+        per_part, wall = {}, {}
         for name, test, binp in built:
             t1 = time.time()
             sub = os.path.join(scratch, name)
             os.makedirs(sub, exist_ok=True)
             dl = deadline if name == "a" else min(deadline, 600)
-            reports += checklib.run_workers(CID, binp, test, tier, WORKERS, dl, sub, extra_env={"GOMAXPROCS": "2"})
+            per_part[name] = checklib.run_workers(CID, binp, test, tier, WORKERS, dl, sub, extra_env={"GOMAXPROCS": "2"})
             wall[name] = round(time.time() - t1, 1)
             checklib.log("part %s workers done in %.1fs" % (name, wall[name]))
-        return checklib.finish(CID, tier, LEVEL, RULE, reports, t0, ASSUMPTIONS,
-                               extra_cov={"harness_wall_s": wall,
-                                          "bound": {"events": 4 if tier == "quick" else 6, "raftlog_entries_per_file": SHRUNK}})
+        # interleave the parts so that the kept samples show both kinds of sequences
+        reports = []
+        for i in range(WORKERS):
+            for name in per_part:
+                if i < len(per_part[name]):
+                    reports.append(per_part[name][i])
+        flaky = sum((r.get("counters") or {}).get("flaky_failures", 0) for r in reports)
+        rc = checklib.finish(CID, tier, LEVEL, RULE, reports, t0, ASSUMPTIONS,
+                             extra_cov={"harness_wall_s": wall,
+                                        "bound": {"events_quick": "full alphabet <= 3, base alphabet <= 4",
+                                                  "events_thorough": "full alphabet <= 4, base alphabet <= 6",
+                                                  "catalogue_events": 4 if tier == "quick" else 6,
+                                                  "raftlog_entries_per_file": SHRUNK}})
+        if flaky and rc == 0:
+            # a failing sequence that does not fail again is a harness problem, never a verdict (BUILDERS.md)
+            for r in reports:
+                for n in r.get("notes") or []:
+                    if "re-executions" in n:
+                        print("TOOL-ERROR: " + n[:1500], flush=True)
+            return 3
+        return rc
     finally:
         shutil.rmtree(scratch, ignore_errors=True)
 
 
-CLAIMED = False
-MANIFEST = dict(level=LEVEL, engine="seqx+synctest", technique="", text="", note="")
+CLAIMED = True
+MANIFEST = dict(
+    level=LEVEL,
+    engine="seqx+synctest",
+    technique="bounded exhaustive fault-sequence enumeration on the real replication stack: three real raft nodes (etcd raft in "
+              "raftconn.RaftNode over real raftlog directories), the real engine write / commit / replay / snapshot / log-truncation path "
+              "and one real shard per replica run inside one testing/synctest bubble (virtual clock, quiescence detection); every "
+              "role-addressed sequence of writes, kills, restarts, flushes and time steps up to the bound is executed from a fresh "
+              "group; reference model = last-write-wins over the prefix-closed set of possible replicated logs; plus exhaustive "
+              "command-sequence enumeration of the catalogue's master re-selection for one replica group",
+    text="(a) Every sequence of <= 4 (quick; <= 6 thorough on the base alphabet) events from {write to the leader, write through a "
+         "follower, write to a leader cut off from its peers, kill leader / a follower, restart the dead replica from its "
+         "directories, flush leader's / a follower's shard, +1 min, +1 election timeout}, at most one replica down, is run on a "
+         "3-replica group built from the real components (startRaftNode, WriteToRaft, readCommitFromRaft / dealCommitData, "
+         "readReplayForReplication, snapshotAfterFlush, deleteEntryLog, real shard), with the transport replaced by an in-memory "
+         "router. After every event every up replica is read directly: its content must be the last-write-wins result of a prefix "
+         "of the write sequence (unacknowledged writes optional), a replica in steady replication must hold every acknowledged "
+         "write, a restarted one must not have lost what it held; a write with a leader and a majority up must be acknowledged; "
+         "after restarting everything a leader must appear and all three replicas must become equal and complete within a bounded "
+         "virtual time. Failing sequences are re-executed 3x. (b) Every sequence of <= 4 / <= 6 catalogue events (node failed in one "
+         "or two steps, join, assignment completion, admin master transfer, marshal round trip) on the real meta.Data with the real "
+         "electRgMaster / GetNewRg / Apply* functions: one master, on an alive node once fail-over has run, consistent peer list, "
+         "status follows the majority, marshal/clone exact.",
+    note="Exhaustive within the stated alphabets and lengths; sequences are addressed by raft role because etcd raft's election jitter "
+         "cannot be seeded. Trusts: Go runtime and testing/synctest, etcd raft, the harness stand-ins for transport, meta client, "
+         "StorageService and coordinator, the shard dump routine shared with C01-C04. Not covered: kills inside one message exchange "
+         "/ flush / replay (events run to quiescence), the coordinator's retry loop, real multi-process SIGKILL, outages longer than "
+         "clear-entryLog-tolerate-time (6 h), power loss; raftlog files hold 4 entries instead of 30000. Two genuine defects are "
+         "recorded as known findings with proposed repairs in fixes/C05-*.diff.",
+)
